@@ -337,9 +337,9 @@ def cases(shard, nshards, seed, tier):
             yield {"family": "fr3d-listing", "i": i}
     if mine():
         yield {"family": "fr3d-corpus", "file": "tests/184D-fr3d.txt"}
-    for k in range(2 if tier == "quick" else 12):
+    for cli_i in range(2 if tier == "quick" else 12):
         if mine():
-            yield {"family": "adapter-cli", "k": k}
+            yield {"family": "adapter-cli", "k": cli_i}
     nd = 150 if tier == "quick" else 3000
     for i in range(nd):
         if mine():
